@@ -19,6 +19,7 @@ from tawazi import Resource, and_, dag, not_, or_, xn  # noqa: E402
 from tawazi.errors import TawaziBaseException  # noqa: E402
 
 NOFLAG = object()
+SAMPLES = []
 
 
 # ---- the plain callables -------------------------------------------------------------------------------------------------
@@ -403,6 +404,8 @@ def check_equivalence(seed, n_cases, nested=True, flags=True):
     viol, cases = [], 0
     for idx in range(n_cases):
         P = gen_prog(rnd, f"prog{idx}", allow_inner=nested, allow_flags=flags)
+        if len(SAMPLES) < 2 and len(P.stmts) >= 3:
+            SAMPLES.append(describe(P))
         k = rnd.randint(P.n_required(), len(P.params))
         inputs = tuple(rnd.choice([("in", j), True, False, 0, {"t": True, "f": False}]) for j in range(k))
         cases += 1
